@@ -58,7 +58,10 @@ Zero32 == Zeros(32)
 \* ---- hardfork eras -----------------------------------------------------------------
 \* a signature is judged against the chain tip; the tip's height decides the era; the replay prefix of the era
 \* precedes every siacoin input and every siafund input in a v1 signature hash.
-\* net = [asic |-> h, foundation |-> h, v2allow |-> h] (activation heights), height = height of the tip
+\* net = [asic |-> h, foundation |-> h, v2allow |-> h] (activation heights), height = height of the tip.
+\* Legacy of the original chain, kept because every node must hash alike: the prefix accompanies INPUTS only, so a
+\* v1 signature over a transaction without inputs (a bare contract revision) reads the same in every era
+\* (SemanticsDistinct!LegacyCorner states it); v2 has no such corner.
 EraPrefix(height, net) ==
   IF height >= net.v2allow THEN <<2>> ELSE IF height >= net.foundation THEN <<1>> ELSE IF height >= net.asic THEN <<0>> ELSE <<>>
 V2Prefix == <<2>>                     \* every v2 signature hash and the v2 commitment carry the prefix of the v2 era
